@@ -403,3 +403,10 @@ def r11(ctx, R):
 def r12(ctx, R):
     from . import c19
     c19.r8(ctx, R)
+
+
+@rule('C09', 'C09.R13', 'the configured limits are the ones that clip: a limiter / estimator that an adaptivity controller adds as a dependency still honours the manual entry of the description (its setup() reaches the base-class merge), and the validations of the adaptivity controllers read restol / maxiter from the section that declares them (shared with C20.R6 / C20.R11)', floor=16)
+def r13(ctx, R):
+    from . import c20
+    c20.dep_setups(ctx, R)
+    c20.r11(ctx, R)
